@@ -71,9 +71,10 @@ def pp(e):
         return '{' + pp(e[1]) + '}+'
     if k == 'join':
         _, sep, x, positive, gather = e
-        op = '.' if gather else '%'
+        # gather: False -> s%{e}, True -> s.{e}, 'left' / 'right' -> the (deprecated, always positive) associative joins s<{e}+ and s>{e}+
+        op = {'left': '<', 'right': '>'}.get(gather) or ('.' if gather else '%')
         s = pp(sep) if sep[0] in ('tok', 'pat') else '(' + pp(sep) + ')'
-        return s + op + '{' + pp(x) + '}' + ('+' if positive else '')
+        return s + op + '{' + pp(x) + '}' + ('+' if positive or gather in ('left', 'right') else '')
     if k == 'and':
         return '&' + term(e[1])
     if k == 'not':
